@@ -18,6 +18,8 @@ func init() {
 			"NOT decided: wall-clock promptness (bounded by HealthCheck.Timeout of an in-flight ping).",
 		Assumptions: []string{"Client.Ping returns by its own timeout (C20)"},
 		Rules: []RuleDef{
+			{ID: "C19.R14", Text: "a failed ping is reported, not fatal: what runs in the ping completion divides by nothing that may be zero (every integer division by a non-constant runs only where the divisor was tested non-zero) (same rule as C20.R21)", Run: noUnguardedDivision},
+			{ID: "C19.R13", Text: "a ping that timed out does not crash the process when its answer arrives late: the channel closes of the module are inside a sync.Once body or among the confirmed ones — the operation record never closes the channel its completion signals on (same rule as C20.R22)", Run: channelClosesKnown},
 			{ID: "C19.R1", Text: "round: return at the first successful ping; panic ⇔ five consecutive failures; after a cancelled wait no further ping; no state carried between rounds", Run: c19r1},
 			{ID: "C19.R11", Text: "the interval and timeout the checker runs with are the configured ones: defaulting never rewrites a configured option (same rule as C17.R1)", Run: c17r1},
 			{ID: "C19.R10", Text: "the rounds keep coming at the configured interval: the ticker that paces them is created with config.Interval, only its channel is read and its Stop deferred — nothing stops, resets or is handed it", Run: roundTickerUntouched},
@@ -381,8 +383,20 @@ func c19r3(c *Ctx, id string) {
 	// Once fields are never reassigned
 	st := hc.Underlying().(*types.Struct)
 	nOnce := 0
-	for i := 0; i < st.NumFields(); i++ {
-		f := st.Field(i)
+	var flds []*types.Var
+	var collect func(t *types.Struct)
+	collect = func(t *types.Struct) { // the checker's own fields, and those of parts embedded by value
+		for i := 0; i < t.NumFields(); i++ {
+			flds = append(flds, t.Field(i))
+			if embeddedPart(t.Field(i)) {
+				if inner, ok := t.Field(i).Type().Underlying().(*types.Struct); ok {
+					collect(inner)
+				}
+			}
+		}
+	}
+	collect(st)
+	for _, f := range flds {
 		if n, ok := f.Type().(*types.Named); !ok || n.Obj().Name() != "Once" {
 			continue
 		}
